@@ -31,6 +31,12 @@ Line-protocol driver for the C13 models (calendar, interval calculators, query p
                                         `unknown-variant` if the source text is neither known variant)
   batch <c> t1 t2 ...               -> F:t,t,.. F:t,..  (family groups of one shard's rows, BrokerBatchShardFamilyIterator;
                                         groups sorted by family, rows sorted) | none
+  bpool c1 t.. | c2 t.. | ..        -> the groups of every request, ` | `-separated: a sequence of write requests (interval type,
+                                        rows) served by ONE pooled iterator object (stateful model FamIter, Model/C13Broker.lean)
+  biter t1 t2 .. | c1 c2 ..         -> the same batch iterated once per calculator without release (rows stay as the previous
+                                        in-place sort left them)
+  bshard <c> | i1 t1 i2 t2 ..       -> <shard>=<groups> | ..: rows (shard index, timestamp) of one batch, the shard groups served
+                                        by the batch's one family iterator
   rollup <src> <tgt> <srcFamilyTime> <slot> -> <targetFTime> <ratio> <baseSlot> <ts> <slot(ts)> | panic
   goc <c> | t1 t2 ... | i1 i2 ...   -> T <obj per writer> R <registered obj per writer> opened <n>
   gdfz <zone> <c> qs qe | t1 t2 ..     -> the range lookup with time.Local = the zone (family starts, sorted) | none
@@ -54,6 +60,7 @@ import LinVerif.Model.Interval
 import LinVerif.Model.IntervalZone
 import LinVerif.Model.GetOrCreate
 import LinVerif.Model.C13Evict
+import LinVerif.Model.C13Broker
 import LinVerif.Generated.C13
 
 namespace LinVerif.Driver.C13
@@ -100,6 +107,22 @@ def showGroups (gs : List (Int × List Int)) : String :=
   " ".intercalate (gs.map fun (f, rows) => s!"{f}:" ++ ",".intercalate ((sortInts rows).map toString))
 
 def ints (ws : List String) : Option (List Int) := ws.mapM String.toInt?
+
+/-- `c t1 t2 ..` of a `bpool` request -/
+def parseReq (ws : List String) : Option (Calc × List Int) :=
+  match ws with
+  | c :: ts => match parseCalc c, ts.mapM String.toInt? with
+    | some c, some ts => some (c, ts)
+    | _, _ => none
+  | [] => none
+
+/-- `i1 t1 i2 t2 ..` of `bshard` -/
+def parsePairs : List String → Option (List (Nat × Int))
+  | [] => some []
+  | i :: t :: rest => match i.toNat?, t.toInt?, parsePairs rest with
+    | some i, some t, some r => some ((i, t) :: r)
+    | _, _, _ => none
+  | [_] => none
 
 /-- schedule token of `goce`: a writer index or `e` (one `Shard.EvictSegment()`) -/
 def parseEStep (w : String) : Option EStep :=
@@ -283,6 +306,29 @@ def step (st : Unit) (ws : List String) : Unit × String :=
       match parseCalc c, ints rest with
       | some c, some ts => showGroups (groupFamilies c ts)
       | _, _ => "bad-op"
+    | "bpool" :: rest =>
+      match (splitBar rest).mapM parseReq with
+      | some reqs => " | ".intercalate ((FamIter.serveAll FamIter.zero reqs).map showGroups)
+      | none => "bad-op"
+    | "biter" :: rest =>
+      match splitBar rest with
+      | [ts, cs] =>
+        match ints ts, cs.mapM parseCalc with
+        | some ts, some cs =>
+          if cs.isEmpty then "bad-op" else
+          " | ".intercalate ((FamIter.reiterate FamIter.zero ts cs).map showGroups)
+        | _, _ => "bad-op"
+      | _ => "bad-op"
+    | "bshard" :: rest =>
+      match splitBar rest with
+      | [[c], ps] =>
+        match parseCalc c, parsePairs ps with
+        | some c, some rows =>
+          if rows.isEmpty then "none" else
+          " | ".intercalate ((FamIter.serveShards FamIter.zero c (shardGroups rows)).map
+            fun (i, gs) => s!"{i}=" ++ showGroups gs)
+        | _, _ => "bad-op"
+      | _ => "bad-op"
     | ["rollup", src, tgt, f, k] =>
       match src.toInt?, tgt.toInt?, f.toInt?, k.toInt? with
       | some src, some tgt, some f, some k =>
